@@ -78,14 +78,14 @@ Guaranteed == ~st.attempted /\ NoExplicitStart(st.fields) /\ Fits(st.fields, BL)
 AssignChecks(e) ==
     IF e[2] = "ok" THEN [TableClosed |-> ~st.open]
     ELSE LET g == Guaranteed
-             nested == NestedOnly(st.fields)
+             nested == TreeShaped(st.fields)
              full == MaxLoad(st.fields) = BL IN
          [TableClosed |-> ~st.open,
-          \* nested scopes, some co-enabled widths sum to exactly the length
+          \* tree-shaped hierarchy, some co-enabled widths sum to exactly the length
           MustSucceedExactFit |-> ~(g /\ nested /\ full),
-          \* nested scopes, at least one bit to spare on every path
+          \* tree-shaped hierarchy, at least one bit to spare on every path
           MustSucceed |-> ~(g /\ nested /\ ~full),
-          \* independent scopes cross (a=0 with b=1): contiguous packing can fragment
+          \* independent scopes cross (a=0 with b=1, or a field under a=1 & b=1): contiguous packing can fragment
           MustSucceedCrossScopes |-> ~(g /\ ~nested)]
 AssignApply(e) == [st EXCEPT !.attempted = TRUE, !.open = (e[2] = "ok"), !.seen = {}, !.shown = {}]
 
